@@ -40,6 +40,10 @@ def cases(tier):
                         if sl == 0 and rc == 'direct':
                             # ... and brought back with --overwrite over a regular file that took its place meanwhile
                             out.append({'target': t, 'form': fm, 'slashes': sl, 'reach': rc, 'place': pl, 'ow': 1})
+        # the link's own name ends in dots, or is not in composed form (directory-like targets, so that trailing slashes are allowed)
+        for nm in ('latest.', 'v1..', 'cafe\u0301-cur'):
+            for sl in range(4):
+                out.append({'target': 'dir', 'form': 'rel', 'slashes': sl, 'reach': 'direct', 'place': pl, 'name': nm})
         # one invocation names the target first and then the link (and the other way round): both are entries of their own
         for fm in FORMS:
             for t in ('file', 'dir', 'chain-file'):
@@ -80,10 +84,11 @@ def run_case(c):
             text = abs_t.rsplit('/', 1)[1]
     else:
         text = abs_t
-    W.link(B + '/real/lnk', text)
-    E = B + '/real/lnk'
+    LN = c.get('name', 'lnk')
+    W.link(B + '/real/' + LN, text)
+    E = B + '/real/' + LN
     W.link(B.rsplit('/', 1)[0] + '/galias', B)          # <parent of B>/galias -> B : an absolute spelling through it has a symlink two levels above the link
-    arg = {'direct': 'real/lnk', 'linked-parent': 'lp/lnk', 'abs-linked-grandparent': B.rsplit('/', 1)[0] + '/galias/real/lnk'}[c['reach']] + '/' * c['slashes']
+    arg = {'direct': 'real/' + LN, 'linked-parent': 'lp/' + LN, 'abs-linked-grandparent': B.rsplit('/', 1)[0] + '/galias/real/' + LN}[c['reach']] + '/' * c['slashes']
     if c.get('with'):
         return run_with_target(c, W, B, E, abs_t, putopts, putenv)
     with cell.Sandbox(W.spec()) as sb:
@@ -96,9 +101,9 @@ def run_case(c):
         if cl['state'] == 'TRASHED':
             # history: a regular file with the same base name is trashed from another directory before the link is restored
             os.makedirs(sb.root + B + '/elsewhere', exist_ok=True)
-            with open(sb.root + B + '/elsewhere/lnk', 'w') as f:
+            with open(sb.root + B + '/elsewhere/' + LN, 'w') as f:
                 f.write('same name, regular file\n')
-            r1 = sb.run(['trash-put'] + putopts + ['elsewhere/lnk'], cwd=B, now='2024-03-04T03:03:03', env=putenv)
+            r1 = sb.run(['trash-put'] + putopts + ['elsewhere/' + LN], cwd=B, now='2024-03-04T03:03:03', env=putenv)
             if c.get('ow'):
                 with open(sb.root + E, 'w') as f:
                     f.write('a regular file took the place of the link\n')
